@@ -83,7 +83,8 @@ OBLIGATIONS = [
                          _c("add_setmd_delete", op1=[0], op2=[1, 2], sa=[0, 1], pa=[0], ow=[0, 2], nm=[False, True]),
                          _c("move_then", op1=[3], op2=[0, 3], sa=[1], pa=[0, 2], ow=[0, 1], raws=[1, 2], dsts=[2, 4], nm=[False]),
                          _c("rename_then", op1=[4], op2=[2, 4], sa=[1, 2], pa=[0], ow=[0, 2], raws=[1, 2], dsts=[0, 2], nm=[False])],
-               "thorough": [_c("op%d_op%d" % (a, b), op1=[a], op2=[b], nm=[False, True] if a == 0 else [False]) for a in range(5) for b in range(5)]},
+               "thorough": [_c("op%d_op%d" % (a, b), op1=[a], op2=[b], nm=[False, True] if (a == 0 and b in (1, 2)) else [False],
+                               pa=[0, 2] if 3 in (a, b) else [0], dsts=[2, 4] if 3 in (a, b) else [0, 2, 4]) for a in range(5) for b in range(5)]},
         desc="every pair of operations from {set_node, delete, set_metadata_for, move to another directory, rename within the directory} on two fake-backed real "
              "DirectoryNodes with symbolic names (same / NFC-equivalent / other), overwrite modes and symbolic timestamps now1, now2: outcome and both directories equal the "
              "map model after each step (in particular: a link's linkcrtime survives the second operation while its linkmotime becomes now2; a failed step changes nothing)"),
